@@ -210,6 +210,24 @@ Section MachineLemmas.
   Qed.
 End MachineLemmas.
 
+Section AmbientLemmas.
+  Variable A : Type.
+  Variable filesA : A -> cmd -> list file.
+  Variable fin : path -> content -> content.
+
+  Lemma step_files_ext (f g : cmd -> list file) t o s :
+    (forall c, f c = g c) -> step f fin t o s = step g fin t o s.
+  Proof. intro H. destruct o as [c| |]; try reflexivity. destruct c; simpl; rewrite H; reflexivity. Qed.
+
+  Lemma ambient_irrelevant_l (a0 : A) :
+    ambient_independent A filesA ->
+    forall h t s, runA_from A filesA fin t h s = run_from (filesA a0) fin t (map snd h) s.
+  Proof.
+    intros H h. induction h as [|[a o] h IH]; intros t s; [reflexivity|].
+    simpl. rewrite IH. f_equal. apply step_files_ext. intro c. apply H.
+  Qed.
+End AmbientLemmas.
+
 Lemma cleanup_spec s p : cleanup s p = if in_gen_subdir p then None else s p.
 Proof. reflexivity. Qed.
 
